@@ -12,7 +12,7 @@ const SPEC: Spec = Spec {
         "operands are fixed dense LCG digit strings without zero digits, so the count is deterministic",
         "thresholds carry margin over the measured values on the pinned tree (max doubling ratio 3.082, W(4096)/4096^2 = 0.074, unbalanced max ratio 1.0000)",
     ],
-    bounds_quick: "balanced n in {256,512,...,16384} and every n in 33..=4096 (doubling ratio W(2n)/W(n)); unbalanced bank n x {2n-1,2n,64n} for n in {33,40,100,256,300,1000} and every lx <= 300 x 7 length relations; 17 multiplication forms x n in {64,256,512,1024,2048,4096} and x 8 unbalanced shapes (both operand orders); 8 operand value shapes (interior zero digits, zero blocks, all-ones, sparse) x n in {1024,2048,4096} x both operand orders",
+    bounds_quick: "balanced n in {256,512,...,16384} and every n in 33..=4096 (doubling ratio W(2n)/W(n)); unbalanced bank n x {2n-1,2n,64n} for n in {33,40,100,256,300,1000} and every lx <= 300 x 7 length relations; 17 multiplication forms x n in {64,256,512,1024,2048,4096} and x 8 unbalanced shapes (both operand orders); 8 operand value shapes (interior zero digits, zero blocks, all-ones, sparse) x n in {1024,2048,4096} x both operand orders under the schoolbook and quarter bounds",
     bounds_thorough: "balanced every n in 33..=8192 and 16384; unbalanced bank and every lx <= 700 x 7 length relations; 17 forms x 6 sizes",
     hang_secs: 120,
     probes: Some(probes),
@@ -382,9 +382,14 @@ fn body(ctx: &mut Ctx) {
                         ctx.viol(format!("value-shape schoolbook {} both={} n={}", NAMES[shape], both, n), "more digit multiplications than the schoolbook method for operands of this value shape", vec![], format!("<= {}", n * n), format!("{}", w_max));
                     }
                     if let Some((pn, pw)) = prev {
-                        if n == 2 * pn && pw > 0 && (w_max as f64) > 3.5 * (pw as f64) && w_max > (n * n / 16) as u64 {
-                            ctx.viol(format!("value-shape doubling {} both={} n={}", NAMES[shape], both, pn), "doubling the operand length multiplies the digit-multiplication count by more than 3.5 for operands of this value shape", vec![NAMES[shape].to_string()], format!("W(2n) <= 3.5*W(n) = {:.0}", 3.5 * pw as f64), format!("W({})={} W({})={} ratio={:.3}", pn, pw, n, w_max, w_max as f64 / pw as f64));
+                        if n == 2 * pn && pw > 0 {
+                            ctx.count_max("max.value_shape_doubling_ratio_x1000", (w_max as f64 / pw as f64 * 1000.0) as u64);
+                            ctx.count_max("max.value_shape_share_of_schoolbook_x10000", (w_max as f64 / (n * n) as f64 * 10000.0) as u64);
                         }
+                        // the doubling ratio of *shaped* operands is recorded, not bounded: with little absolute work
+                        // (zeros make products cheaper) it moves with every threshold between equivalent algorithms --
+                        // 3.47 on the pinned tree, 3.84 with the schoolbook threshold at 24, 3.98 with a squaring
+                        // kernel -- while the property's ratio clause speaks of large operands in general (BAL, FORMS)
                     }
                     if n == 4096 && w_max >= (4096u64 * 4096) / 4 {
                         ctx.viol(format!("value-shape quarter {} both={}", NAMES[shape], both), "the 4096 x 4096 product needs a quarter or more of the schoolbook digit multiplications for operands of this value shape", vec![NAMES[shape].to_string()], format!("< {}", 4096u64 * 4096 / 4), format!("{}", w_max));
